@@ -251,4 +251,6 @@ def build():
 
 
 TEMPLATE, FNS = build()
-UNIT = dict(name='c13_attrs', template=TEMPLATE, fns=FNS, props=['C13'])
+UNIT = dict(name='c13_attrs', template=TEMPLATE, fns=FNS, props=['C13'],
+            callee_links={'remove_attribute': [('c13_tree', 'XmlElement::remove_attribute/post:' + l) for l in (
+                'C13+C12:no_attribute_of_that_name_nothing_changes', 'C13+C12:the_first_attribute_of_that_name_is_answered_leaves_the_list_and_loses_its_owner')]})
